@@ -397,6 +397,7 @@ def run_check(prop, tier, seed, replay_file=None):
         case_by = {c["cid"]: c for c in cases}
         new, known, unspec = [], {}, 0
         clause_counts = {}
+        advisory = {}
         n_events = 0
         sample_events = []
         keep = {}                      # id -> event, only for events with a failed clause
@@ -432,6 +433,9 @@ def run_check(prop, tier, seed, replay_file=None):
                     if kind == "UNSPEC":
                         unspec += 1
                         continue
+                    if kind == "ADVISORY":
+                        advisory[clause] = advisory.get(clause, 0) + 1
+                        continue
                     if kind == "SPECDEFECT":
                         raise Machinery("the specification disagrees with its authoritative oracle on event %s: %s\n%s"
                                         % (eid, clause, json.dumps({k: v for k, v in ev.items() if k != "meta"})[:600]))
@@ -463,6 +467,9 @@ def run_check(prop, tier, seed, replay_file=None):
         for fid, eids in sorted(known.items()):
             fd = next(f for f in findings if f["id"] == fid)
             print("KNOWN-FINDING: property=%s %s: %s (%d events this run)" % (prop, fid, fd["what"], len(eids)))
+        for clause, n in sorted(advisory.items()):
+            print("NOTE property=%s step-level conformance: %d recorded runs deviate from the algorithm specification (clause %s, advisory)"
+                  % (prop, n, clause))
         reported = set()
         nviol = 0
         for eid, clause, feats in new:
@@ -491,7 +498,7 @@ def run_check(prop, tier, seed, replay_file=None):
                        rule="one evaluation = one recorded public call judged by the trace specification; distinct = distinct "
                             "(call, projected operands, projected result) triples" +
                             ("; non-trivial = " + drv.NONTRIVIAL_RULE if hasattr(drv, "NONTRIVIAL_RULE") else ""),
-                       failed_clauses=clause_counts, known_finding_events={k: len(v) for k, v in known.items()},
+                       failed_clauses=clause_counts, advisory_step_level_deviations=advisory, known_finding_events={k: len(v) for k, v in known.items()},
                        new_violation_events=nviol, hashseeds=list(hashseeds), exhaustive=drv.exhaustive(tier)
                        if hasattr(drv, "exhaustive") else False,
                        bounds=drv.bounds(tier) if hasattr(drv, "bounds") else "",
